@@ -268,7 +268,7 @@ class Machine:
             raise ILError('call to undefined function %s' % name)
         f = self.m.funcs[name]
         self.depth += 1
-        if self.depth > 200: raise Trap('recursion too deep')
+        if self.depth > getattr(self, 'depth_limit', 200): raise Trap('recursion too deep')
         mark = self.top
         env = {}
         named = args[:len(f.params)]
